@@ -206,6 +206,15 @@ HAND = [
     "[3H]C(C)=O.O>>CC=O.O[3H]",
     "[2H]c1ccccc1.BrBr>>Brc1ccccc1.[2H]Br",
     "C[13C](=O)O[2H].CO>>C[13C](=O)OC",
+    # pairs with the same reactants and search result but different given products
+    "COC(=O)[C@H](C)N>>OC(=O)[C@H](C)N",
+    "COC(=O)[C@H](C)N>>OC(=O)[C@@H](C)N",
+    "CCOC(=O)c1ccccc1>>OC(=O)c1ccccc1",
+    "CCOC(=O)c1ccccc1>>[O-]C(=O)c1ccccc1",
+    "CC(=O)OC/C=C/C>>OC/C=C/C",
+    "CC(=O)OC/C=C/C>>OC/C=C\\C",
+    "CC(=O)N[C@@H](C)c1ccccc1>>N[C@@H](C)c1ccccc1",
+    "CC(=O)N[C@@H](C)c1ccccc1>>N[C@H](C)c1ccccc1",
     # repeated molecules reaching the MCS stage; both-sided imbalance with product-side carbon surplus
     "COC(C)=O.COC(C)=O>>CC(=O)CC(=O)OC",
     "CCOC(=O)c1ccccc1.CCOC(=O)c1ccccc1>>OC(=O)c1ccccc1.OC(=O)c1ccccc1",
